@@ -682,6 +682,8 @@ func checkC06(c *Ctx) {
 	c06IM0All(c)
 	// (5) the request constructors hand every caller an object of its own
 	c06Constructors(c)
+	// (6) handlers (and port devices) of unusual Go shapes
+	runDeviceShapes(c, "c06/shapes")
 	c.Exhaustive = true
 	c.Assume("EI: acceptance at the next Step or one instruction later are both model successors; RETI: IFF1 unchanged or copied from IFF2 (DESIGN §6)")
 	c.Assume("mode 0: only RST n and CALL nn are used as supplied instructions; the pushed return address may be PC or PC+len (the latter is C07's known finding)")
